@@ -21,6 +21,8 @@ func c15(p *core.Program, r *core.Report) {
 	r.Rule("R4", "reduce: per-shard rows are combined with Row.Merge, per-shard counts are added")
 	r.Rule("R5", "the segment iterator keeps the sides apart: every return of mergeSegmentIterator.next puts into its first result only nil or a pointer into the receiver's first segment list, and into the second only nil or a pointer into the second list")
 	c15IteratorSides(p, r)
+	r.Rule("R6", "Set marks existence first: in executeSet every call of executeSetBitField or executeSetValueField lies on a path that called SetBit on the index's existence field, or found that field nil")
+	c15SetMarksExistence(p, r)
 	r.NotDecided = "equality of query answers with the set-algebra model for generated data (value level); the roaring kernels (C01); Row.Merge/Union/... themselves (C03 decides isolation only)"
 	pk := p.Pkg("")
 	if pk == nil {
